@@ -109,12 +109,16 @@ func nonzero(v uint64) uint64 {
 }
 
 func sinceChoice(rng *rand.Rand, small bool) uint64 {
-	c := []uint64{0, 0, 1, 2, 5, 8, 9, 10, 11, 12, 19, 20, 21, 25, 30, 39}
-	if small || rng.Intn(3) > 0 {
+	switch r := rng.Intn(100); {
+	case r < 55:
+		return uint64(rng.Intn(10)) // inside the window
+	case r < 85 || small:
+		c := []uint64{10, 10, 11, 12, 19, 20, 21, 25, 30, 39}
 		return c[rng.Intn(len(c))]
+	default:
+		big := []uint64{100, 1000, 1 << 20, 10 << 32, 10<<32 + 5, 1 << 40, 1 << 50, 1<<62 + 7}
+		return big[rng.Intn(len(big))]
 	}
-	big := []uint64{100, 1000, 1 << 20, 10 << 32, 10<<32 + 5, 1 << 40, 1 << 50, 1<<62 + 7}
-	return big[rng.Intn(len(big))]
 }
 
 type rowWriter struct {
@@ -270,6 +274,9 @@ func TestVerifFeeMarketRows(t *testing.T) {
 					}
 				}
 				r.target[d] = nonzero(wide(rng))
+				if rng.Intn(2) == 0 { // a target below typical window totals, so that prices also rise
+					r.target[d] = nonzero(uint64(rng.Intn(1 << 22)))
+				}
 				r.denom[d] = nonzero(uint64(rng.Intn(64)))
 				if rng.Intn(5) == 0 {
 					r.denom[d] = nonzero(wide(rng))
